@@ -21,6 +21,8 @@ def run(ctx):
     jobs = [dict(ctx=ctx, binary=binary, name="fb%d" % k, stacks=st[k::3], outs=seq.OUTS4, maxcalls=3 if quick else 4, execs=2, workers=6) for k in range(3)]
     typed = [["fbT"], ["fbT", "rpT"], ["fbT", "cbTy"], ["fbT", "rpA"], ["fbT", "cbA"], ["fbH2", "fbT"], ["fbT", "rpTR"]]
     jobs.append(dict(ctx=ctx, binary=binary, name="fbtyped", stacks=typed, outs=seq.OUTS_TY, maxcalls=3, execs=2, workers=4))
+    wrapped = [["fbT"], ["fbH"], ["fbT", "rpT"], ["fbH2", "rpTR"], ["fbT", "cbTy"]]
+    jobs.append(dict(ctx=ctx, binary=binary, name="fbwrap", stacks=wrapped, outs=seq.OUTS_WR, maxcalls=3, execs=2, workers=4))
     mism = seq.run_jobs(ctx, jobs, par=3)
     seq.report(ctx, mism, accept)
     return vlib.finish(ctx, rule="fallback-centred stacks (5 fallback configurations: result / error / handled subset / ErrExceeded+result / ErrOpen) over and under %d inner policies; "
